@@ -918,17 +918,25 @@ impl Domain for D {
             emit_map(out, &g, &mut rng);
         }
         // 2. systematic: every word of every item of a base map × the boundary set
-        for _ in 0..n_sys {
+        for sys_k in 0..n_sys {
             let g = gen_map(&mut rng);
             let nd = g.datas.len() as i32;
+            // the counts every index is compared against: items per type
+            let count = |t: u16| g.items.iter().filter(|it| it.type_id == t).count() as i32;
+            let limits = [nd, count(2), count(3), count(4), count(5), count(7)];
             for i in 0..g.items.len() {
                 for f in 0..g.items[i].data.len() {
                     let orig = g.items[i].data[f];
-                    let mut vals = vec![0, 1, -1, 2, 3, i32::MIN, i32::MAX, nd - 1, nd, nd + 1, 255, 256, orig.wrapping_add(1), orig.wrapping_sub(1)];
+                    let mut vals = vec![0, 1, -1, -2, 2, 3, i32::MIN, i32::MAX, 255, 256, orig.wrapping_add(1), orig.wrapping_sub(1)];
+                    // exact limit and limit +-1 of every range an index can be checked against
+                    for l in limits {
+                        vals.extend_from_slice(&[l - 1, l, l + 1]);
+                    }
                     vals.sort();
                     vals.dedup();
                     for v in vals {
-                        if v != orig && (thorough || rng.chance(1, 2)) {
+                        // the first base map completely, the others sampled in the quick tier
+                        if v != orig && (thorough || sys_k == 0 || rng.chance(1, 3)) {
                             let mut m = MapGen { items: g.items.clone(), datas: g.datas.clone() };
                             m.items[i].data[f] = v;
                             emit_map(out, &m, &mut rng);
